@@ -561,12 +561,31 @@ def mon_c18(h):
             if e["kind"] == "RET" and e["f"][0].startswith("d.")]
     has_sub_chan = any(k == "chan" for _, k, _ in h.sc["subs"]) or any(
         e["f"][0].startswith(("sc:", "it")) for e in h.kinds("INV"))
-    ambiguous = any(entry == "D" and r == "err" for entry, a, r in rets)
-    if (h.sc["reducers"] or h.sc["mws"]) and not has_sub_chan and not ambiguous and not h.sc["effect_action"]:
-        opened = len(rets) - closed_impl
-        taken = len(taken_actions(h) & {a for _, a, _ in rets})
-        if taken + m["dropped"] != opened:
-            bad.append(("balance", "%d dispatches found the store open, the reducer took %d actions, action_dropped=%d" % (opened, taken, m["dropped"])))
+    # a rejected Dispatcher-entry dispatch means "closed" under the blocking policy, and under a drop
+    # policy when it was invoked after a close()/stop()/drop had returned; otherwise it may also be
+    # a discarded action (already counted in action_dropped): ambiguous, no balance claimed
+    first_closed = next((e["i"] for e in h.ev if e["kind"] == "RET" and e["f"][0] in ("close", "stop", "drop")), None)
+    inv_of = {}
+    closed_d, ambiguous = 0, False
+    for e in h.ev:
+        if e["kind"] == "INV" and e["f"][0].startswith("d.D."):
+            inv_of[(e["t"], e["f"][0])] = e["i"]
+        if e["kind"] == "RET" and e["f"][0].startswith("d.D.") and e["f"][1] == "err":
+            i0 = inv_of.get((e["t"], e["f"][0]), -1)
+            if h.sc["pol"] == "block" or (first_closed is not None and i0 > first_closed):
+                closed_d += 1
+            else:
+                ambiguous = True
+    if not has_sub_chan and not ambiguous and not h.sc["effect_action"]:
+        opened = len(rets) - closed_impl - closed_d
+        if h.sc["reducers"] or h.sc["mws"]:
+            taken = len(taken_actions(h) & {a for _, a, _ in rets})
+            if taken + m["dropped"] != opened:
+                bad.append(("balance", "%d dispatches found the store open, the reducer took %d actions, action_dropped=%d" % (opened, taken, m["dropped"])))
+        elif opened - m["dropped"] not in (m["received"] - 1, m["received"]):
+            # no reducer / middleware callback shows which actions were taken: action_received
+            # (which may or may not include the shutdown marker) stands in
+            bad.append(("balance", "%d dispatches found the store open, action_received=%d (marker included or not), action_dropped=%d" % (opened, m["received"], m["dropped"])))
     return bad
 
 
